@@ -930,7 +930,11 @@ class Simplifier(pysmt.walkers.DagWalker):
         s, i = args
         if s.is_string_constant() and i.is_int_constant():
             i_value = cast(int, i.constant_value())
-            res = cast(str, s.constant_value())[i_value:i_value + 1]
+            if i_value < 0:
+                # Out of range (python would index from the end)
+                res = ""
+            else:
+                res = cast(str, s.constant_value())[i_value:i_value + 1]
             return self.manager.String(res)
         return self.manager.StrCharAt(s, i)
 
@@ -944,10 +948,15 @@ class Simplifier(pysmt.walkers.DagWalker):
     def walk_str_indexof(self, formula: FNode, args: List[FNode], **kwargs) -> FNode:
         s, t, i = args
         if s.is_string_constant() and t.is_string_constant() and i.is_int_constant():
-            idx = cast(str, s.constant_value()).find(
-                cast(str, t.constant_value()),
-                cast(int, i.constant_value()),
-            )
+            i_value = cast(int, i.constant_value())
+            if i_value < 0:
+                # Out of range (python would count from the end)
+                idx = -1
+            else:
+                idx = cast(str, s.constant_value()).find(
+                    cast(str, t.constant_value()),
+                    i_value,
+                )
             # idx = -1, if t is not found
             return self.manager.Int(idx)
         return self.manager.StrIndexOf(s, t, i)
@@ -966,7 +975,12 @@ class Simplifier(pysmt.walkers.DagWalker):
         if s.is_string_constant() and i.is_int_constant() and j.is_int_constant():
             start_ = cast(int, i.constant_value())
             end_ = cast(int, i.constant_value()) + cast(int, j.constant_value())
-            res = cast(str, s.constant_value())[start_:end_]
+            if start_ < 0 or end_ <= start_:
+                # Out of range offset or non-positive length
+                # (python would slice from the end)
+                res = ""
+            else:
+                res = cast(str, s.constant_value())[start_:end_]
             return self.manager.String(res)
         return self.manager.StrSubstr(s, i, j)
 
